@@ -152,6 +152,37 @@ def run_unit(p, tier, seed):
         r['transitions'] += 64
         if img != set(range(64)):
             r.v(PROPERTY, 'BitwiseFPEPRP', 'bijection', 'collision', {'n': 6}, 'permutation of 0..63', sorted(img))
+        # history on ONE PRP object: a correct call, then the same integer value presented as a key of another bit length
+        for kb, mb in ((128, 8), (192, 16)):
+            prp = P(key_bit_length=kb, message_bit_length=mb)
+            kv = g.getrandbits(kb - 2)            # top two bits clear: the value also fits in kb-1 bits
+            good = Bitset(kv, kb)
+            msg = Bitset(g.getrandbits(mb), mb)
+            y0 = prp(good, msg)
+            for wrong in (kb - 1, kb + 1, kb + 8):
+                case = {'same_key_value_other_length': wrong, 'declared': [kb, mb]}
+                r['evaluations'] += 1
+                r['transitions'] += 1
+                r.count('fpeprp-contract')
+                try:
+                    prp(Bitset(kv, wrong), msg)
+                    r.v(PROPERTY, 'BitwiseFPEPRP', 'contract', 'wrong-length-accepted-after-correct-call', case, 'ValueError', 'accepted')
+                except ValueError:
+                    r.outcome('refused')
+                except Exception as e:
+                    r.v(PROPERTY, 'BitwiseFPEPRP', 'contract', 'wrong-exception', case, 'ValueError', core.exc_text(e))
+            for wrongm in (mb - 1, mb + 1):
+                case = {'same_message_value_other_length': wrongm, 'declared': [kb, mb]}
+                r['evaluations'] += 1
+                try:
+                    prp(good, Bitset(int(msg) >> 1, wrongm))
+                    r.v(PROPERTY, 'BitwiseFPEPRP', 'contract', 'wrong-length-accepted-after-correct-call', case, 'ValueError', 'accepted')
+                except ValueError:
+                    r.outcome('refused')
+                except Exception as e:
+                    r.v(PROPERTY, 'BitwiseFPEPRP', 'contract', 'wrong-exception', case, 'ValueError', core.exc_text(e))
+            if int(prp(good, msg)) != int(y0):
+                r.v(PROPERTY, 'BitwiseFPEPRP', 'determinism', 'after-refused-calls', {'declared': [kb, mb]}, 'same output', 'differs')
         # several widths under ONE key in ONE process, through the PRP wrapper: every instance is a permutation of its own domain
         shared = Bitset(g.getrandbits(128) | (1 << 127), 128)
         for n in (12, 11, 10, 9, 8, 7, 6, 5, 4, 3, 2, 3, 4, 5, 6, 7, 8, 9, 10, 11, 12):
@@ -274,7 +305,7 @@ def replay(case, seed):
         return run_unit({'kind': 'ffx', 'n': case['n'], 'ki': case['key_index']}, 'quick', seed)['violations']
     if 'n' in case and 'x' in case:
         return run_unit({'kind': 'ffxw', 'n': case['n'], 'count': 20}, 'quick', seed)['violations']
-    if 'declared' in case or case.get('n') == 6:
+    if 'declared' in case or case.get('n') == 6 or case.get('shared_key'):
         return run_unit({'kind': 'fpeprp'}, 'quick', seed)['violations']
     if case.get('message_length') == 2 and 'quarter' in case:
         return run_unit({'kind': 'lr2join'}, 'quick', seed)['violations']
